@@ -258,25 +258,7 @@ func c09Limits(w *World, r *Report) {
 	if dot == nil {
 		r.Undecided("R09.3", "func:util.Dotify", "-", "anchor unresolved")
 	} else {
-		chunk := int64(-1)
-		consistent := true
-		allInstrs(dot, func(in ssa.Instruction) {
-			if sl, ok := in.(*ssa.Slice); ok {
-				for _, v := range []ssa.Value{sl.Low, sl.High} {
-					if v == nil {
-						continue
-					}
-					if c, ok := constIntVal(v); ok && c > 0 {
-						if chunk >= 0 && chunk != c {
-							consistent = false
-						}
-						chunk = c
-					}
-				}
-			}
-		})
-		r.Check(chunk > 0 && chunk <= 63 && consistent, "R09.3", "func:util.Dotify|chunk", w.Pos(dot.Pos()), fmt.Sprintf("a dot is inserted every %d characters (<= 63)", chunk),
-			fmt.Sprintf("labels are cut every %d characters (consistent=%v): a DNS label may not exceed 63 octets, longer names cannot be packed", chunk, consistent))
+		c09Dotify(w, r, dot)
 	}
 	lab, ok1 := intConstOf(w, "internal/streams/dns/util", "LabelMaxlen")
 	host, ok2 := intConstOf(w, "internal/streams/dns/util", "HostnameMaxLen")
@@ -465,11 +447,13 @@ func checkC10(w *World, r *Report) {
 	r.Rule("R10.6", "private record type registered = emitted", 1)
 	r.Rule("R10.8", "reassembly strips the domain by length, never by character set", 1)
 	r.Rule("R10.7", "tag + chunk fits the record type's rdata limit", 3)
+	r.Rule("R10.10", "wrapping helpers never append to or write into the slices they are given", 1)
 	r.Rule("R10.9", "order counters: capacity guards can fire, narrowing conversions proven in range", 8)
 
 	pairLayouts(w, r, "R10.1", "Response")
 	c10Records(w, r)
 	c10Private(w, r)
+	c10NoWriteIntoCallerSlices(w, r)
 }
 
 type wrapInfo struct {
@@ -828,3 +812,202 @@ func c10Private(w *World, r *Report) {
 	r.Check(regType == emitted, "R10.6", key, regPos, fmt.Sprintf("private record type %d is both registered with miekg and emitted/queried", regType),
 		fmt.Sprintf("the private RR is registered as type %d (0x%X) but records are emitted and queried with type %d: on the client they unpack as unknown RRs, match no reassembly case, and the payload is silently empty", regType, regType, emitted))
 }
+
+// c10NoWriteIntoCallerSlices: R10.10 — the helpers that turn a payload into names/records are handed
+// sub-slices of the response being split (data[0:maxLen]); the capacity of such a slice reaches into the
+// bytes of the NEXT record. A helper that appends to a slice parameter therefore
+// overwrites data that is still to be sent — silently, lengths and alphabet stay right.
+func c10NoWriteIntoCallerSlices(w *World, r *Report) {
+	n := 0
+	var bad []string
+	for fn := range allModuleFuncs(w, w.SSA()) {
+		f0 := fn
+		for f0.Parent() != nil {
+			f0 = f0.Parent()
+		}
+		if f0.Pkg == nil || f0.Pkg.Pkg.Path() != modPath+"/internal/streams/dns/util" {
+			continue
+		}
+		fromParam := func(v ssa.Value) *ssa.Parameter {
+			for _, root := range provenance(v, provOpts{}) {
+				if p, ok := root.(*ssa.Parameter); ok {
+					if _, isSlice := p.Type().Underlying().(*types.Slice); isSlice && p.Parent() == fn {
+						return p
+					}
+				}
+			}
+			return nil
+		}
+		allInstrs(fn, func(in ssa.Instruction) {
+			switch x := in.(type) {
+			case *ssa.Call:
+				if b, ok := x.Call.Value.(*ssa.Builtin); ok && b.Name() == "append" && len(x.Call.Args) > 0 {
+					n++
+					if p := fromParam(x.Call.Args[0]); p != nil {
+						if site := subSliceReaches(w, fn, p, 0); site != "" {
+							bad = append(bad, fmt.Sprintf("%s: %s appends to its slice parameter %s, and %s hands it a sub-slice of a longer buffer: the spare capacity is the caller's following bytes (the next record's payload), which are overwritten — lengths and alphabet stay right, the payload is silently different", w.Pos(x.Pos()), ssaFuncKey(fn), p.Name(), site))
+						}
+					}
+				}
+			}
+		})
+	}
+	sort.Strings(bad)
+	r.Check(len(bad) == 0 && n > 0, "R10.10", "pkg:streams/dns/util|no-write-into-caller-slices", "-", fmt.Sprintf("%d append site(s) in the wrapping helpers, none extends a slice parameter in place (copy/element stores into output buffers such as Read(p) are a different contract and not judged)", n), strings.Join(bad, "; "))
+}
+
+// subSliceReaches: does some static call chain hand parameter p of fn a sub-slice x[a:b] (b given) of a
+// longer buffer? Returns the call site.
+func subSliceReaches(w *World, fn *ssa.Function, p *ssa.Parameter, depth int) string {
+	if depth > 3 {
+		return ""
+	}
+	idx := -1
+	for i, q := range fn.Params {
+		if q == p {
+			idx = i
+		}
+	}
+	if idx < 0 {
+		return ""
+	}
+	for caller := range allModuleFuncs(w, w.SSA()) {
+		for _, c := range callsIn(caller) {
+			if c.Common().StaticCallee() != fn || idx >= len(c.Common().Args) {
+				continue
+			}
+			for _, root := range provenance(c.Common().Args[idx], provOpts{}) {
+				switch x := root.(type) {
+				case *ssa.Slice:
+					if x.High != nil {
+						if _, fresh := x.X.(*ssa.Alloc); !fresh {
+							return w.Pos(c.Pos()) + " (" + ssaFuncKey(caller) + ")"
+						}
+					}
+				case *ssa.Parameter:
+					if x.Parent() == caller {
+						if s := subSliceReaches(w, caller, x, depth+1); s != "" {
+							return s
+						}
+					}
+				}
+			}
+		}
+	}
+	return ""
+}
+
+// c09Dotify: R09.3 for the dot inserter, decided with the linear-entailment engine (A10) instead of a
+// fixed code shape: the output is built by appends of pieces of the input and of single dots;
+//  (a) every piece has a provable length <= 63 (a DNS label);
+//  (b) after every dot, on every path, another piece follows whose length is provably >= 1 — otherwise
+//      the name ends in, or contains, an empty label and cannot be packed.
+func c09Dotify(w *World, r *Report, dot *ssa.Function) {
+	key := "func:util.Dotify|labels"
+	pos := w.Pos(dot.Pos())
+	isDotSlice := func(v ssa.Value) bool {
+		sl, ok := v.(*ssa.Slice)
+		if !ok {
+			return false
+		}
+		al, ok := sl.X.(*ssa.Alloc)
+		if !ok {
+			return false
+		}
+		arr, ok := al.Type().(*types.Pointer).Elem().Underlying().(*types.Array)
+		if !ok || arr.Len() != 1 {
+			return false
+		}
+		isDot := false
+		for _, ref := range *al.Referrers() {
+			if ia, ok := ref.(*ssa.IndexAddr); ok {
+				for _, r2 := range *ia.Referrers() {
+					if st, ok := r2.(*ssa.Store); ok {
+						if c, ok := constIntVal(st.Val); ok && c == '.' {
+							isDot = true
+						}
+					}
+				}
+			}
+		}
+		return isDot
+	}
+	appendOf := func(in ssa.Instruction) (piece ssa.Value, isDot bool, ok bool) {
+		c, isCall := in.(*ssa.Call)
+		if !isCall {
+			return nil, false, false
+		}
+		b, isB := c.Call.Value.(*ssa.Builtin)
+		if !isB || b.Name() != "append" || len(c.Call.Args) != 2 {
+			return nil, false, false
+		}
+		if isDotSlice(c.Call.Args[1]) {
+			return nil, true, true
+		}
+		return c.Call.Args[1], false, true
+	}
+	var dots, pieces []ssa.Instruction
+	allInstrs(dot, func(in ssa.Instruction) {
+		if _, isD, ok := appendOf(in); ok {
+			if isD {
+				dots = append(dots, in)
+			} else {
+				pieces = append(pieces, in)
+			}
+		}
+	})
+	if len(dots) == 0 || len(pieces) == 0 {
+		r.Undecided("R09.3", key, pos, "the dot inserter is not built from appends of input pieces and '.' (idiom not recognised)")
+		return
+	}
+	var bad []string
+	// (a) label length
+	for _, pi := range pieces {
+		piece, _, _ := appendOf(pi)
+		sys := factsAt(pi)
+		if !sys.entails(lenOf(piece, 0), linConst(63)) {
+			bad = append(bad, fmt.Sprintf("%s: a piece of the input is appended whose length is not proven <= 63: a DNS label may not exceed 63 octets, longer names cannot be packed", w.Pos(pi.Pos())))
+		}
+	}
+	// (b) something non-empty follows every dot
+	isPiece := func(in ssa.Instruction) bool { _, isD, ok := appendOf(in); return ok && !isD }
+	for _, di := range dots {
+		base := factsAt(di)
+		okp := enumPaths(dot, di, nil, func(in ssa.Instruction) bool { return isPiece(in) || in == di }, func(e pathExit) {
+			if e.Stop == nil {
+				if _, isRet := e.Last.(*ssa.Return); isRet {
+					bad = append(bad, fmt.Sprintf("%s: after this dot the function can return without appending anything: the name ends in an empty label", w.Pos(di.Pos())))
+				}
+				return
+			}
+			if e.Stop == di {
+				bad = append(bad, fmt.Sprintf("%s: two dots can be appended in a row (empty label)", w.Pos(di.Pos())))
+				return
+			}
+			piece, _, _ := appendOf(e.Stop)
+			// evaluate the piece's length along this path in terms of the values that existed when the dot was appended
+			pe := evalPath(di, e.Stop, e.State)
+			if !base.entails(linConst(1), pe.lenOf(piece)) {
+				bad = append(bad, fmt.Sprintf("%s: the piece appended after the dot at %s is not proven non-empty on a path: when the input length is an exact multiple of the label length the name gets an empty label (\"..\" before the domain) and dns.Msg.Pack refuses it", w.Pos(e.Stop.Pos()), w.Pos(di.Pos())))
+			}
+		})
+		if !okp {
+			r.Undecided("R09.3", key, pos, "path budget exceeded")
+			return
+		}
+	}
+	sort.Strings(bad)
+	bad = uniqStrings(bad)
+	r.Check(len(bad) == 0, "R09.3", key, pos, fmt.Sprintf("%d piece append(s) proven <= 63 octets; after each of the %d dot append(s) a provably non-empty piece follows on every path", len(pieces), len(dots)), strings.Join(bad, "; "))
+}
+
+func uniqStrings(in []string) []string {
+	var out []string
+	for i, s := range in {
+		if i == 0 || s != in[i-1] {
+			out = append(out, s)
+		}
+	}
+	return out
+}
+
